@@ -16,6 +16,7 @@ import (
 )
 
 type deferRec struct {
+	block *ssa.BasicBlock
 	guard string
 	call  *ssa.Defer
 	args  []Val
@@ -53,6 +54,7 @@ type Frame struct {
 	loopHead     map[*ssa.BasicBlock]*loopCtx
 	freeVars     map[*ssa.FreeVar]Val
 	curLoopFrame bool
+	reachCache   map[[2]int]bool
 	stack        []string
 	// names of values for spec lookup
 	paramVal map[string]Val
@@ -675,4 +677,40 @@ func sortedBlocks(m map[*ssa.BasicBlock]bool) []*ssa.BasicBlock {
 	}
 	sort.Slice(out, func(i, j int) bool { return out[i].Index < out[j].Index })
 	return out
+}
+
+// canReach: whether block from can reach block to in the function's DAG (back edges ignored).
+func (f *Frame) canReach(from, to *ssa.BasicBlock) bool {
+	if from == to {
+		return true
+	}
+	if f.reachCache == nil {
+		f.reachCache = map[[2]int]bool{}
+	}
+	k := [2]int{from.Index, to.Index}
+	if v, ok := f.reachCache[k]; ok {
+		return v
+	}
+	seen := map[*ssa.BasicBlock]bool{to: true}
+	stack := []*ssa.BasicBlock{to}
+	found := false
+	for len(stack) > 0 && !found {
+		x := stack[len(stack)-1]
+		stack = stack[:len(stack)-1]
+		for _, p := range x.Preds {
+			if x.Dominates(p) {
+				continue
+			}
+			if p == from {
+				found = true
+				break
+			}
+			if !seen[p] {
+				seen[p] = true
+				stack = append(stack, p)
+			}
+		}
+	}
+	f.reachCache[k] = found
+	return found
 }
